@@ -101,6 +101,7 @@ fn pi_mp() -> Mp {
 /// mantissas that land exactly on 1.0 after d steps (level 1: the values just above sqrt 2 whose truncated square is
 /// 2.0, ...). The tree is critical (about one preimage per node): for most fraction widths it dies after a few
 /// levels, for a few it reaches depth F. Computed once per fraction width, frontier capped at 64 nodes per level.
+/// Level 0 also holds 1.0 + k ulp for small k, so the orbits also end a hair above 1.0.
 fn log2_orbit_levels(f: u32) -> std::sync::Arc<Vec<Vec<Big>>> {
     use std::collections::HashMap;
     use std::sync::{Arc, Mutex, OnceLock};
@@ -136,7 +137,9 @@ fn log2_orbit_levels(f: u32) -> std::sync::Arc<Vec<Vec<Big>>> {
         }
         out
     };
-    let mut levels: Vec<Vec<Big>> = vec![vec![one.clone()]];
+    // level 0: the fixed point 1.0 and the mantissas a few ulps above it (from which the squarings only double the
+    // excess for a long run)
+    let mut levels: Vec<Vec<Big>> = vec![(0..12).map(|k| one.add_i64(k)).collect()];
     for _ in 0..f {
         let mut next: Vec<Big> = Vec::new();
         for y in levels.last().unwrap() {
@@ -242,6 +245,16 @@ fn operands(prop: &str, op: u16, sl: L, dl: L, mode: usize, ia: Ing, ib: Ing, r1
                     // smallest invertible values: around 2^(2f)/max_D expressed in S
                     let t = Big::pow2(2 * dl.f).div_trunc(&dl.hi()).shr_floor(dl.f - sl.f);
                     sl.wrap(&t.add_i64(small(r1)))
+                }
+                7 if (r1 >> 20) & 1 == 1 => {
+                    // simple algebraic constants (square roots of small rationals) -+ a few ulps, times a power of four
+                    const RATS: [(u64, u64); 12] = [(2, 1), (3, 1), (4, 3), (3, 4), (1, 2), (5, 1), (1, 3), (5, 4), (2, 3), (3, 2), (8, 1), (1, 8)];
+                    let (p, q) = RATS[((r1 >> 24) % 12) as usize];
+                    // floor(sqrt(p/q) 2^f) = isqrt(p 2^(2f) / q)
+                    let v = isqrt(&Big::from_u64(p).shl(2 * sl.f).div_trunc(&Big::from_u64(q)));
+                    let j = ((r1 >> 32) % 5) as u32;
+                    let v = if (r1 >> 40) & 1 == 1 { v.shl(2 * j) } else { v.shr_floor(2 * j) };
+                    sl.wrap(&v.add_i64(small(r2)))
                 }
                 _ => {
                     let t = [sl.raw_max(), sl.raw_max() - 1, sl.raw_max() / 2, 1, 2, 3, one, one * 2, one * 4 & sl.mask(), sl.raw_min(), 0][(r1 % 11) as usize];
